@@ -62,6 +62,7 @@ class OutputLength(Contract):
 class CallSingle(Contract):
     file, qualname = FILE, "Function.__call__"
     label = "Function.__call__[single point]"
+    total = False   # the function's own `assert len(f_value) == self.output_length()` fires when the USER's eval disagrees with its declared output length
 
     def inputs(self, S):
         return {"self": function_obj(S), "coordinates": Opaque(S.const("coordinates", U))}
